@@ -549,7 +549,7 @@ def idna_ascii(tier):
 def nfc(tier):
     """NFC kernels over symbolic tables (harness/nfc.c)"""
     o = []
-    for mode, name, ns in ((0, "reorder", lens(tier, (3,), (1, 2, 3, 4, 5, 6))), (3, "hangul", lens(tier, (2,), (2,)))):
+    for mode, name, ns in ((0, "reorder", lens(tier, (3,), (2, 3, 4, 5, 6))), (3, "hangul", lens(tier, (2,), (2,)))):
         # MODE 1 (would_compose <=> compose changes) and MODE 2 (is_already_nfc <=> its three conditions) of harness/nfc.c
         # were measured: no verdict within 40 min at N = 2 (kissat) - symbolic composition tables with the binary search
         # are out of reach; their ground is covered natively by the NFC base case (lib/tv.py idna_corpus).
